@@ -93,6 +93,10 @@ def make_histories(rng, q):
     for i in range(12 if q else 120):
         mus.append(gen_conv.mus_history(gen_conv.mus_score(rng, 60, nchan=15, perc=True)))
     parts.append(("mus_random", mus))
+    # delays at the limit of an SMF delta time (convert only: 2^28 ticks are 22 days): 2^28 - 1 must convert, 2^28 is the
+    # smallest delay for which the model predicts the crash of mus2mid_writevarlen
+    parts.append(("mus_delay_limit", [[gen_conv.INIT, {"e": "Mus", "chans": 1, "ins": [], "ev": [
+        {"k": "rel", "ch": 0, "n": 60, "dl": d}, {"k": "end", "ch": 0, "dl": 0}]}, gen_conv.CVT] for d in (2097152, 268435455, 268435456)]))
     parts.append(("mus_malformed_convert_only", [gen_conv.mus_malformed_history(rng, rng.choice([1, 3, 8, 20])) for _ in range(300 if q else 3000)]))
     xmi = []
     for i in range(200 if q else 3000):
@@ -109,7 +113,12 @@ def relabel_crashes(failures, histories):
     """A crash / sanitizer report while loading a MUS score that contains a system event is a consequence of the converter
     losing byte synchronisation there (garbage delays): its own defect class, so that a matcher can target it."""
     for f in failures:
-        if f.prop == "CRASH" and 0 <= f.history < len(histories):
+        if f.prop == "CRASH" and "mus2mid_writevarlen" in (f.detail or ""):
+            # a MUS delay of five or more base-128 digits (>= 2^28 ticks): the int32 scratch value of mus2mid_writevarlen turns
+            # negative, its output loop never terminates inside temp_buffer[32] (cvt_mus2mid.hpp:211 from :337);
+            # spec/Mus2Mid.tla predicts it (result `crash`)
+            f.what = "mus-delay-overflow-crash"
+        elif f.prop == "CRASH" and 0 <= f.history < len(histories):
             h = histories[f.history]
             if any(c.get("e") == "Mus" and any(e.get("k") == "sys" for e in c.get("ev", [])) for c in h):
                 f.what = "mus-system-event-crash"
